@@ -912,6 +912,14 @@ func (e *Engine) execBinOp(s *State, fr *Frame, x *ssa.BinOp) {
 			r = wrapInt(q, rt)
 		} else {
 			r = Sub(a, Mul(b, q))
+			if _, lit := litValue(b); !lit {
+				// symbolic divisor: elementary facts about Go's remainder (sign of the dividend, |r| < |b|)
+				rd := e.u.Define("rem", r)
+				s.assume(And(Ite(Ge(a, IntLit(0)), Ge(rd, IntLit(0)), Le(rd, IntLit(0))),
+					Implies(Gt(b, IntLit(0)), And(Lt(Sub(IntLit(0), b), rd), Lt(rd, b))),
+					Implies(Lt(b, IntLit(0)), And(Lt(b, rd), Lt(rd, Sub(IntLit(0), b))))))
+				r = rd
+			}
 		}
 	case token.LSS:
 		r = Lt(a, b)
